@@ -401,7 +401,8 @@ class Merger:
                     raise MergeException(
                         "Mandatory identity key, {}, not present in Hash with"
                         " keys:  {}."
-                        .format(id_key, ", ".join(ele.keys()))
+                        .format(id_key, ", ".join(
+                            str(key) for key in ele.keys()))
                         , path_next
                     )
 
